@@ -149,7 +149,8 @@ FieldPlans(F, raw, small) ==
       ab == ElemPlansOf(F, raw, small)
   IN CASE F.kind \in {"prim"} -> IF small THEN {VPrim(F.tfty, TRUE, FALSE, ZeroOfTf(F.tfty)), VPrim(F.tfty, FALSE, FALSE, NonZeroA(F.cls))}
                                  ELSE PrimPlans(F.tfty, F.cls, raw)
-       [] F.kind = "custom" -> {VPrim("string", TRUE, FALSE, "")}
+       \* (the harness's hooks present a custom-type field as a String attribute: null, unknown, known)
+       [] F.kind = "custom" -> {VPrim("string", TRUE, FALSE, ""), VPrim("string", FALSE, TRUE, ""), VPrim("string", FALSE, FALSE, "6375")}
        [] F.kind \in {"primlist", "objlist"} ->
             {VList(TRUE, FALSE, <<>>, ett, TRUE), VList(FALSE, FALSE, <<ab[1]>>, ett, FALSE)}
             \cup (IF small THEN {} ELSE {VList(FALSE, TRUE, <<>>, ett, TRUE), VList(FALSE, FALSE, <<>>, ett, FALSE), VList(FALSE, FALSE, <<ab[1], ab[2]>>, ett, FALSE),
